@@ -4,6 +4,7 @@ package ice
 
 import (
 	"github.com/pion/stun/v3"
+	"net/netip"
 )
 
 func init() {
@@ -256,6 +257,14 @@ func verifC16Equality() {
 	}
 	c1 := verifBuildCand(cfg1)
 	c2 := verifBuildCand(cfg2)
+	// an mDNS host candidate may have been resolved in the meantime (the agent
+	// does that for remote mDNS candidates): either side, both or none
+	for _, c := range []Candidate{c1, c2} {
+		if h, ok := c.(*CandidateHost); ok && h.Address() == "abcd.local" && verifChoice(2) == 1 {
+			verifAssert(h.setIPAddr(netip.AddrFrom4([4]byte{10, 9, 8, 7})) == nil, "resolve")
+			verifReach("mdns-resolved")
+		}
+	}
 	hasTCP := verifBaseOf(c1).tcpType != TCPTypeUnspecified
 	verifAssert(c1.Equal(c1), "Equal-reflexive")
 	verifAssertKnown(c1.DeepEqual(c1), "DeepEqual-reflexive", "C16-deepequal-tcptype", hasTCP)
